@@ -6,7 +6,7 @@ from . import smt
 from .smt import V, I, B
 from .values import (SInt, SBool, SCell, Seq, PyList, Unsupported, _t, as_v, view_seq, seq_of_items, emit)
 from .interp import (PyExc, PathEnd, Env, Closure, ClassObj, Instance, BoundMethod, Builtin, ExcClass, ExcValue,
-                     TypeObj, STable, SrcIter, MapIter, ListIter, Opaque, UCall, MUTATORS, EXC_PARENTS)
+                     TypeObj, STable, SrcIter, LiveSeqIter, MapIter, ListIter, Opaque, UCall, MUTATORS, EXC_PARENTS)
 
 TRUSTED = [
     "T2: next()/for over a list-backed iterator returns the elements in order and raises StopIteration at the end",
@@ -103,6 +103,8 @@ def get_iter(interp, v, node=None):
             v.iterators = []
         v.iterators.append(it)
         return it
+    if isinstance(v, Seq) and getattr(v, 'live', False):
+        return LiveSeqIter(v, 'live-seq')
     if isinstance(v, Seq):
         it = SrcIter(v.arr, v.len, 'seq', origin=v.origin)
         it.elem_seq = v
@@ -1070,6 +1072,8 @@ def call_type(interp, ty, args, kwargs, node):
         for k, v in kwargs.items():
             d.setitem(interp, k, v)
         return d
+    if n == 'set' and getattr(interp, 'symbolic_dicts', False) and not args:
+        return ASet()
     if n == 'set':
         return make_set(interp, iter_concrete(interp, args[0]) if args else [])
     if n == 'int':
@@ -1256,6 +1260,24 @@ class ACounter(object):
 
     def havoc(self, interp, nm):
         self.cnt = smt.fresh(nm + '_cnt', z3.ArraySort(V, I))
+
+
+class ASet(object):
+    """set with SYMBOLIC contents: membership is an SMT array indexed by the canonical key (T6)"""
+
+    def __init__(self):
+        self.has = z3.K(V, z3.BoolVal(False))
+        self.origin = 'Fresh'
+        self._d = ADict()
+
+    def py_contains(self, interp, k, node=None):
+        return SBool(z3.Select(self.has, self._d.key(k)))
+
+    def add(self, interp, k):
+        self.has = z3.Store(self.has, self._d.key(k), z3.BoolVal(True))
+
+    def havoc(self, interp, nm):
+        self.has = smt.fresh(nm + '_has', VB)
 
 
 class DictSlot(object):
@@ -1565,6 +1587,11 @@ def getattr_builtin(interp, obj, attr, node=None):
                 return SCell(z3.Select(o.val, ck))
             return args[1] if len(args) > 1 else None
         return Builtin('dict.get', _get)
+    if isinstance(obj, ASet) and attr == 'add':
+        def _add(interp, args, kw, node_, o=obj):
+            interp.log_mutation('add', o, node_)
+            o.add(interp, args[0])
+        return Builtin('set.add', _add)
     if isinstance(obj, SDict):
         return Builtin('dict.' + attr, lambda interp, args, kw, node_, o=obj, a=attr: dict_method(interp, o, a, args, kw, node_))
     if isinstance(obj, SCell):
